@@ -490,10 +490,11 @@ CHECK_DEADLOCK FALSE
 """
 DYN_NAMES = {"go", "go+reflection", "fastgo+no_fmt", "go/dump", "go+reflection/patch", "go/flat"}   # MC_Determinism!DynNames
 FULL_NAMES = {"go+reflection", "fastgo+no_fmt", "go/dump"}      # MC_Determinism!CfgFull
+CFG_NAMES = {"CfgDyn": DYN_NAMES, "CfgFull": FULL_NAMES, "CfgP2": {"go+reflection/patch", "fastgo+no_fmt"}, "CfgQuick": None}
 PROG_WEIGHTS = {"ProgsW1": {0, 1}, "ProgsW1Low": {0, 1}, "ProgsW2": {0, 1, 2}, "ProgsFull": {99}}
 MC_RUNS = {
     "quick": [dict(layer="B", progs="ProgsW1Low", cfgs="CfgDyn", perm=2, jobs=2, stale="StaleBoth"),
-              dict(layer="P", progs="ProgsW1Low", cfgs="CfgDyn", perm=2, jobs=2, stale="StaleBoth")],
+              dict(layer="P", progs="ProgsW1Low", cfgs="CfgP2", perm=2, jobs=2, stale="StaleBoth")],
     "thorough": [dict(layer="A", progs="ProgsW1", cfgs="CfgQuick", perm=2, jobs=2, stale="StaleBoth"),
                  dict(layer="B", progs="ProgsW1", cfgs="CfgQuick", perm=2, jobs=2, stale="StaleBoth"),
                  dict(layer="P", progs="ProgsW1", cfgs="CfgQuick", perm=2, jobs=2, stale="StaleBoth"),
@@ -538,10 +539,9 @@ def model_check(ctx, cases_by_key):
         for (cn, pk), c in cases_by_key.items():
             if r["progs"] == "ProgsW1Low" and 8 in [c["p"][f] for f in ("ann", "ns", "mapConst", "mapDefault", "inc", "defs")]:
                 continue
-            if r["cfgs"] == "CfgFull" and cn not in FULL_NAMES:
+            if CFG_NAMES[r["cfgs"]] is not None and cn not in CFG_NAMES[r["cfgs"]]:
                 continue
-            if c["weight"] in PROG_WEIGHTS[r["progs"]] and (r["cfgs"] == "CfgQuick" or cn in DYN_NAMES) \
-                    and c["cfg"]["name"] != "s" and c[lk] and (cn, pk) not in div:
+            if c["weight"] in PROG_WEIGHTS[r["progs"]] and c["cfg"]["name"] != "s" and c[lk] and (cn, pk) not in div:
                 raise vlib.MachineryError("model inconsistency (layer %s): the table says %s leak but TLC found no diverging "
                                           "executions for %s %s" % (r["layer"], c[lk], cn, pk))
         total[r["layer"]] += len(div)
@@ -778,8 +778,10 @@ def run(ctx, args):
         rule="cases = TLC-enumerated (program feature vector, configuration) pairs: the least program, every single "
              "deviation per feature dimension (annotations per node 1/2/8 on declarations/members, namespaces 0/2/8, "
              "map constant entries 1/2/8, map default entries 2/8, includes 1/2/2-diamond/8, services x exceptions, "
-             "definitions 3/8, all definition kinds), in thorough also every pair of deviations, and the program with "
-             "everything, times the configurations; each executed %d times (GOMAXPROCS 1/2/16; fresh, re-used and "
+             "definitions 3/8, all definition kinds), in thorough also every pair of deviations (for three configurations), "
+             "and the program with everything, times the configurations (quick: 13; thorough: also every single core "
+             "option, every pair of core options, plugin / recursion / fastgo variants, and 21 further options on the "
+             "strongest deviations only); each executed %d times (GOMAXPROCS 1/2/16; fresh, re-used and "
              "garbage-filled output directory). distinct class = (backend, options, plugin, recursion, set of "
              "(site, key count) at which an unordered collection of >= 2 keys is walked). Plus the TLC-enumerated "
              "insertion-point texts of Replacer.tla, each replayed into generator.FileManager (class = number of "
